@@ -24,6 +24,9 @@ T = {
  "C12": ("crashfs", "fault_enumeration", "fault injection through the verif FS hook (error / partial write at the j-th file operation of a Commit, for every j) + reference-model no-effect oracle in the process and after reopen; reflection-enumerated Tx API in read-only and finished transactions",
          "Enumerates, per generated transaction, every position j of an injected I/O fault until the commit gets through, plus fn-error after every j, rollback, oversize at first/middle/last; the full observation must equal the model state before the fault.",
          "Faults are injected before the real operation (which is skipped). Sparse-mode I/O-fault and in-doubt cases are known findings (KF-SPARSE-FAULT, KF-SPARSE-INDOUBT)."),
+ "C13": ("refmodel", "exploration", "runtime monitor: sequential reference model per operation inside multi-operation write transactions, with an executable alternative model as known-finding explainer",
+         "Generated transactions read, peek and pop what they just wrote; every returned value and the state after Commit are compared with sequential execution. A mismatch is attributed to the known finding only if the alternative model (operations evaluated on the committed pre-state, invalid ones skipped at apply time) reproduces it exactly.",
+         "Known finding KF-C13-COMMITTED-VIEW: the property does not hold on this code base (architectural); the check still reports any deviation the alternative model cannot reproduce."),
  "C05": ("refmodel", "exploration", "runtime monitor: Redis-list reference model; bounded-exhaustive state x operation x argument sweep on the exported list type plus one-operation-per-transaction histories with full observation",
          "Exhaustive for the bounded scope on ds/list.List (781 states x 3 construction paths x all arguments, all short sequences), random long sequences, and transaction-level histories with reopen; every call result and resulting list compared with the model.",
          "Model tolerates the documented error-instead-of-clamp choices; a panic is never tolerated."),
